@@ -446,6 +446,14 @@ func (c *Ctx) addObl(fr *Frame, o *Obligation) {
 	if fr != nil && fr.id != "" {
 		o.Name += "[" + fr.fn.Name() + "]"
 	}
+	// several clauses may share a label and a site: number them
+	if c.nameSeen == nil {
+		c.nameSeen = map[string]int{}
+	}
+	c.nameSeen[o.Name]++
+	if n := c.nameSeen[o.Name]; n > 1 {
+		o.Name = fmt.Sprintf("%s~%d", o.Name, n)
+	}
 	if o.Guard == nil {
 		o.Guard = tTrue
 	}
